@@ -230,6 +230,38 @@ def weights_recovery_replay(rec):
                            f"(weight[0]={w:.3f}, expected the previous 1.0 "
                            f"or the new 2.0); files: "
                            f"{sorted(os.listdir(d))}")
+                continue
+            # second phase: the resumed run trains again and is killed in
+            # the middle of ITS weights save (the state the recovery left
+            # behind is the initial state of that save); recovery must work
+            # again
+            p2 = subprocess.run(
+                [sys.executable, "-c", WCHILD, d, "mid-write:half"],
+                capture_output=True, text=True, timeout=300,
+                env=dict(os.environ, PYTHONPATH=os.environ.get(
+                    "NESSAI_REPO", "/repo")))
+            if p2.returncode != 77:
+                bad.append(f"[{where}] second save: child did not reach the "
+                           f"kill point: {p2.stderr[-200:]}")
+                continue
+            prop2 = object.__new__(FlowProposal)
+            prop2.mask = None
+            prop2.weights_file = f
+            prop2.initialise = lambda resumed=False: None
+            fm2 = object.__new__(FlowModel)
+            fm2.model = torch.nn.Linear(3, 3)
+            fm2.initialised = True
+            fm2.weights_file = None
+            prop2.flow = fm2
+            try:
+                FlowProposal.resume(prop2, object(), {})
+            except Exception as ex:        # noqa: BLE001
+                bad.append(f"[{where}, then a kill in the middle of the "
+                           f"next weights save] FlowProposal.resume raised "
+                           f"{type(ex).__name__}: {str(ex)[:80]}; files: "
+                           f"{sorted(os.listdir(d))} -- the first recovery "
+                           f"left the torn file in place and the next save "
+                           f"moved it over the only valid copy")
         finally:
             shutil.rmtree(d, ignore_errors=True)
     if bad:
